@@ -457,7 +457,7 @@ func (e *env) replica(t *testing.T, wal bool, ahead bool, op func(c *lab.Cluster
 
 // replicaFork: a former primary that committed one transaction of its own at the TXID the new primary also used (a fork
 // of equal length) rejoins and is sent a snapshot ending at the very TXID its own log ends with; crash at every point.
-func (e *env) replicaFork(t *testing.T, wal bool) {
+func (e *env) replicaFork(t *testing.T, wal bool, longer bool) {
 	c := lab.NewCluster(10 * time.Second)
 	defer c.Close()
 	col := &collector{base: e.base}
@@ -523,14 +523,22 @@ func (e *env) replicaFork(t *testing.T, wal bool) {
 		e.res.Harness = "R1's transaction: " + err.Error()
 		return
 	}
+	if longer {
+		// the fork is one transaction longer than the new primary's history: the snapshot rewinds the node
+		base = imgB
+		if imgB, err = commit(R, 13, 2); err != nil {
+			e.res.Harness = "R1's second transaction: " + err.Error()
+			return
+		}
+	}
 	R.Store.Demote()
 	if !lab.WaitFor(40*time.Second, func() bool { return P.Store.IsPrimary() && !R.Store.IsPrimary() }) {
 		e.res.Harness = "P did not become primary again"
 		return
 	}
 	before := posOf(R.DB("db"))
-	if before[0] != posOf(P.DB("db"))[0] || before == posOf(P.DB("db")) {
-		e.res.Harness = fmt.Sprintf("no fork of equal length: R1 %v P %v", before, posOf(P.DB("db")))
+	if pp := posOf(P.DB("db")); (!longer && before[0] != pp[0]) || (longer && before[0] != pp[0]+1) || before == pp {
+		e.res.Harness = fmt.Sprintf("no fork of the wanted length: R1 %v P %v", before, pp)
 		return
 	}
 	col.on = true
@@ -821,7 +829,7 @@ func run1(t *testing.T, c Case) (res Result) {
 				return cur, nil
 			}, false)
 		case "H11c-replica-fork-resnapshot":
-			e.replicaFork(t, c.Variant%2 == 1)
+			e.replicaFork(t, c.Variant%2 == 1, c.Variant/2 == 1)
 		case "H13-replica-tombstone":
 			e.replica(t, c.Variant%2 == 1, false, func(cl *lab.Cluster, P *lab.Node, a *pager.Conn, img *oracle.Image) (*oracle.Image, error) {
 				a.Close()
@@ -854,7 +862,7 @@ func TestCheck(t *testing.T) {
 	}{
 		{"H1-first-tx", 6}, {"H2-grow", 3}, {"H3-shrink", 3}, {"H4-multi-segment", 3}, {"H5-rollback-after-spill", 3},
 		{"H6-wal-fresh", 3}, {"H7-wal-after-restart", 2}, {"H7b-wal-second-tx", 2}, {"H8-sqlite-checkpoint", 4}, {"H8b-wal-tx-after-checkpoint", 2}, {"H9-litefs-recover", 2},
-		{"H12-drop", 2}, {"H14-import", 4}, {"H10-replica-incremental", 2}, {"H10w-replica-incremental-wal", 2}, {"H11-replica-snapshot", 2}, {"H11b-replica-resnapshot", 2}, {"H11c-replica-fork-resnapshot", 2}, {"H15-restore-from-backup", 2}, {"H13-replica-tombstone", 2},
+		{"H12-drop", 2}, {"H14-import", 4}, {"H10-replica-incremental", 2}, {"H10w-replica-incremental-wal", 2}, {"H11-replica-snapshot", 2}, {"H11b-replica-resnapshot", 2}, {"H11c-replica-fork-resnapshot", 4}, {"H15-restore-from-backup", 2}, {"H13-replica-tombstone", 2},
 	}
 	type geo struct {
 		ps    int
